@@ -133,6 +133,8 @@ type Obligation struct {
 	vc     *VC
 	Result *SolveResult
 	Detail string
+	Ghost  string
+	x      *Exec
 }
 
 type Exec struct {
@@ -156,6 +158,8 @@ type Exec struct {
 	dry      int
 	unsupported []string
 	modCollect *[]*LVal
+	curGhost string
+	ghostDepth int
 	rootParams []Term
 	lemmaMode bool
 	initMode bool
@@ -212,7 +216,7 @@ func (x *Exec) oblige(fr *Frame, kind, snippet string, st *State, goal Term, pos
 	if n := x.ordinals[base]; n > 1 {
 		name = fmt.Sprintf("%s#%d", base, n)
 	}
-	o := &Obligation{Name: name, Kind: kind, Func: fname, Unit: x.unit, Upto: len(x.vc.asserts), Path: st.reach, Goal: goal, Pos: posStr(x.eng.Fset, pos), Props: x.props, vc: x.vc, Cover: kind == "cover"}
+	o := &Obligation{Name: name, Kind: kind, Func: fname, Unit: x.unit, Upto: len(x.vc.asserts), Path: st.reach, Goal: goal, Pos: posStr(x.eng.Fset, pos), Props: x.props, vc: x.vc, Cover: kind == "cover", x: x, Ghost: x.curGhost}
 	x.obls = append(x.obls, o)
 }
 
@@ -512,11 +516,12 @@ func (x *Exec) note(format string, a ...any) {
 
 // alloc allocates a fresh heap object of type t holding init.
 func (x *Exec) alloc(st *State, t types.Type, init Term) Term {
-	ref := x.vc.name("ref", add(st.top, intLit(1)))
-	if len(ref.S) > 12 || strings.HasPrefix(ref.S, "(") {
-		c := x.vc.fresh("ref", SInt)
-		x.vc.asserts = append(x.vc.asserts, "(= "+c.S+" "+ref.S+")")
-		ref = c
+	var ref Term
+	if x.vc.noName > 0 {
+		ref = add(st.top, intLit(1))
+	} else {
+		ref = x.vc.fresh("ref", SInt)
+		x.vc.asserts = append(x.vc.asserts, "(= "+ref.S+" "+add(st.top, intLit(1)).S+")")
 	}
 	st.top = ref
 	st.written["top"] = true
